@@ -1164,7 +1164,7 @@ class Stream(AbstractStream):
                 self.phase = 'g'
             else:
                 raise error
-            self.S = self.mixture.solve_T_at_SP(
+            self.T = self.mixture.solve_T_at_SP(
                 self.phase, self.mol, S, *self._thermal_condition
             )
     @property
